@@ -146,7 +146,41 @@ func (this *LexPart) ExpandRegDefs() error {
 			return err
 		}
 	}
+	// a regular definition that no token refers to is never expanded (nor looked at when the lexer is built): a
+	// reference to an undefined regular definition inside it is reported here
+	for _, def := range this.RegDefsList {
+		if id := this.undefinedRegDef(def.pattern); id != "" {
+			return fmt.Errorf("undefined regular definition %s used in %s", id, def.Id())
+		}
+	}
 	return nil
+}
+
+// undefinedRegDef returns the id of the first regular definition that pattern refers to and that is not defined.
+func (this *LexPart) undefinedRegDef(pattern *LexPattern) string {
+	for _, alt := range pattern.Alternatives {
+		for _, term := range alt.Terms {
+			var sub *LexPattern
+			switch t := term.(type) {
+			case *LexRegDefId:
+				if _, defined := this.RegDefs[t.Id]; !defined {
+					return t.Id
+				}
+			case *LexGroupPattern:
+				sub = t.LexPattern
+			case *LexOptPattern:
+				sub = t.LexPattern
+			case *LexRepPattern:
+				sub = t.LexPattern
+			}
+			if sub != nil {
+				if id := this.undefinedRegDef(sub); id != "" {
+					return id
+				}
+			}
+		}
+	}
+	return ""
 }
 
 func (this *LexPart) StringLitTokDef(id string) *LexTokDef {
